@@ -1,5 +1,6 @@
 (* Proofs/ClientConnProofs.v — C12 / C10 / C13: completion bookkeeping of the client. *)
-From Coq Require Import Lia.
+From Coq Require Import Lia Permutation.
+From Coq Require Import ZifyN ZifyNat ZifyBool.
 From GoImap.Base Require Import Bytes.
 From GoImap.Model Require Import ClientConn.
 Open Scope N_scope.
@@ -7,19 +8,327 @@ Open Scope N_scope.
 Definition pending_tags (c : client) : list N := map p_tag (c_pending c).
 Definition done_tags (c : client) : list N := map fst (c_done c).
 
+(* ------------------------------------------------------------------ helpers *)
+
+Lemma run_snoc : forall evs e, run (evs ++ [e]) = step (run evs) e.
+Proof. intros; unfold run; rewrite fold_left_app; reflexivity. Qed.
+
+Lemma run_app_cons : forall evs e evs',
+  run (evs ++ e :: evs') = fold_left step evs' (step (run evs) e).
+Proof. intros; unfold run; rewrite fold_left_app; reflexivity. Qed.
+
+Lemma take_tag_spec : forall t l p rest, take_tag t l = Some (p, rest) ->
+  p_tag p = t /\ Permutation (map p_tag l) (t :: map p_tag rest).
+Proof.
+  induction l as [|q r IH]; simpl; intros p rest H; [discriminate|].
+  destruct (p_tag q =? t) eqn:E.
+  - inversion H; subst q r. apply N.eqb_eq in E. split; [exact E|]. rewrite E. apply Permutation_refl.
+  - destruct (take_tag t r) as [[q' r']|] eqn:T; [|discriminate].
+    inversion H; subst q' rest. destruct (IH _ _ eq_refl) as [A B]. split; [exact A|].
+    simpl. eapply perm_trans; [apply perm_skip; exact B| apply perm_swap].
+Qed.
+
+Lemma upd_first_tags : forall f g, (forall p, p_tag (g p) = p_tag p) ->
+  forall l l', upd_first f g l = Some l' -> map p_tag l' = map p_tag l.
+Proof.
+  intros f g Hg; induction l as [|q r IH]; simpl; intros l' H; [discriminate|].
+  destruct (f q).
+  - inversion H; subst l'; simpl. now rewrite Hg.
+  - destruct (upd_first f g r) eqn:U; [|discriminate]. inversion H; subst l'; simpl.
+    now rewrite (IH _ eq_refl).
+Qed.
+
+(* the possible shapes of one step *)
+Definition shapeU (c c' : client) : Prop :=
+  pending_tags c' = pending_tags c /\ c_done c' = c_done c /\ c_tag c' = c_tag c /\
+  c_closed c' = c_closed c /\ c_state c' = c_state c /\ (c_mbox c' = None <-> c_mbox c = None).
+Definition shapeA (c c' : client) : Prop :=
+  pending_tags c' = pending_tags c /\ c_done c' = c_done c /\ c_tag c' = c_tag c /\ c_closed c' = false.
+Definition shapeB (c c' : client) : Prop :=
+  pending_tags c' = pending_tags c ++ [c_tag c + 1] /\ c_done c' = c_done c /\
+  c_tag c' = c_tag c + 1 /\ c_closed c' = false.
+Definition shapeC (c c' : client) : Prop :=
+  exists t s p rest, take_tag t (c_pending c) = Some (p, rest) /\ c_pending c' = rest /\
+    c_done c' = (t, s) :: c_done c /\ c_tag c' = c_tag c /\ c_closed c' = false.
+Definition shapeD (c c' : client) : Prop :=
+  c_pending c' = [] /\ c_done c' = rev (map (fun p => (p_tag p, 3)) (c_pending c)) ++ c_done c /\
+  c_tag c' = c_tag c /\ c_closed c' = true.
+Definition shapeE (c c' : client) : Prop :=
+  c_pending c' = [] /\ c_done c' = (c_tag c + 1, 3) :: c_done c /\ c_tag c' = c_tag c + 1 /\
+  c_closed c' = true.
+
+Definition uni (e : cev) : Prop :=
+  match e with EvExists _ | EvExpunge _ | EvFlags _ | EvPermFlags _ | EvOther => True | _ => False end.
+
+Lemma shapeU_refl : forall c, shapeU c c.
+Proof. intro c; unfold shapeU; repeat split; auto. Qed.
+
+Lemma upd_shapeU : forall c c1 f g, (forall p, p_tag (g p) = p_tag p) -> c_closed c = false ->
+  shapeU c c1 ->
+  shapeU c (match upd_first f g (c_pending c1) with
+            | Some l => mkC (c_state c1) (c_mbox c1) l (c_tag c1) (c_done c1) false
+            | None => c1 end).
+Proof.
+  intros c c1 f g Hg Hc (A & B & C & D & E & F).
+  destruct (upd_first f g (c_pending c1)) eqn:U.
+  - unfold shapeU, pending_tags in *; simpl. rewrite (upd_first_tags f g Hg _ _ U).
+    repeat split; auto; apply F.
+  - unfold shapeU; repeat split; auto; apply F.
+Qed.
+
+Lemma step_closed_nosubmit : forall c e, c_closed c = true ->
+  (forall k, e <> EvSubmit k) -> step c e = c.
+Proof.
+  intros c e H Hn. unfold step. rewrite H. destruct e; try reflexivity. exfalso; eapply Hn; reflexivity.
+Qed.
+
+Lemma step_unilateral : forall c e, uni e -> shapeU c (step c e).
+Proof.
+  intros c e Hu. destruct (c_closed c) eqn:Hc.
+  - rewrite step_closed_nosubmit; auto using shapeU_refl.
+    intros k ->. exact Hu.
+  - destruct e; simpl in Hu; try contradiction; unfold step; rewrite Hc; cbv zeta.
+    + (* EvExists *)
+      destruct (upd_first _ _ (c_pending c)) eqn:U.
+      * assert (E : map p_tag l = map p_tag (c_pending c))
+          by (eapply upd_first_tags; [|exact U]; intro; reflexivity).
+        unfold shapeU, pending_tags; simpl. rewrite E. repeat split; auto.
+      * destruct (c_mbox c) eqn:M; [destruct (c_state c =? S_SEL)|]; try apply shapeU_refl.
+        unfold shapeU; simpl; rewrite M; repeat split; auto; intro X; discriminate X.
+    + (* EvExpunge *)
+      apply upd_shapeU; [reflexivity|exact Hc|].
+      destruct (c_mbox c) eqn:M; [destruct ((c_state c =? S_SEL) && (0 <? mb_num m))|];
+        try apply shapeU_refl.
+      unfold shapeU; simpl; rewrite M; repeat split; auto; intro X; discriminate X.
+    + (* EvFlags *)
+      apply upd_shapeU; [reflexivity|exact Hc|].
+      destruct (c_mbox c) eqn:M; [destruct (c_state c =? S_SEL)|]; try apply shapeU_refl.
+      unfold shapeU; simpl; rewrite M; repeat split; auto; intro X; discriminate X.
+    + (* EvPermFlags *)
+      apply upd_shapeU; [reflexivity|exact Hc|].
+      destruct (c_mbox c) eqn:M; [destruct (c_state c =? S_SEL)|]; try apply shapeU_refl.
+      unfold shapeU; simpl; rewrite M; repeat split; auto; intro X; discriminate X.
+    + apply shapeU_refl.
+Qed.
+
+Lemma on_ok_fields : forall c p,
+  c_pending (on_ok c p) = c_pending c /\ c_done (on_ok c p) = c_done c /\
+  c_tag (on_ok c p) = c_tag c /\ c_closed (on_ok c p) = c_closed c.
+Proof. intros c p; unfold on_ok; destruct (p_kind p); simpl; auto. Qed.
+
+Lemma step_shape_open : forall c e, c_closed c = false ->
+  shapeA c (step c e) \/ shapeB c (step c e) \/ shapeC c (step c e) \/ shapeD c (step c e).
+Proof.
+  intros c e Hc.
+  assert (HU : uni e -> shapeA c (step c e)).
+  { intro Hu. destruct (step_unilateral c e Hu) as (A & B & C & D & _).
+    unfold shapeA; repeat split; auto; congruence. }
+  destruct e; try (left; apply HU; exact I); clear HU; unfold step; rewrite Hc.
+  - (* EvGreeting *)
+    destruct (kind =? 0); [left; unfold shapeA; simpl; auto|].
+    destruct (kind =? 1); [left; unfold shapeA; simpl; auto|].
+    right; right; right. unfold shapeD; simpl; auto.
+  - (* EvSubmit *)
+    right; left. unfold shapeB, pending_tags; simpl. rewrite map_app; simpl; auto.
+  - (* EvTagged *)
+    destruct (take_tag tag (c_pending c)) as [[p rest]|] eqn:T.
+    + right; right; left. exists tag, status, p, rest. split; [exact T|].
+      destruct (status =? 0).
+      * destruct (on_ok_fields (mkC (c_state c) (c_mbox c) rest (c_tag c) ((tag, status) :: c_done c) false) p)
+          as (A & B & C & D). rewrite A, B, C, D; simpl; auto.
+      * simpl; auto.
+    + right; right; right. unfold shapeD; simpl; auto.
+  - (* EvClosed *)
+    left; unfold shapeA; simpl; auto.
+  - (* EvConnLost *)
+    right; right; right. unfold shapeD; simpl; auto.
+Qed.
+
+Lemma step_shape_closed : forall c e, c_closed c = true ->
+  step c e = c \/ shapeE c (step c e).
+Proof.
+  intros c e Hc. unfold step; rewrite Hc. destruct e; auto.
+  right; unfold shapeE; simpl; auto.
+Qed.
+
+(* ---- the bookkeeping invariant ---- *)
+Definition tags (c : client) : list N := pending_tags c ++ done_tags c.
+
+Definition Inv (c : client) : Prop :=
+  NoDup (tags c) /\ (forall t, In t (tags c) <-> 1 <= t <= c_tag c) /\
+  (c_closed c = true -> c_pending c = []).
+
+Lemma range_perm_same : forall (l l' : list N) n, Permutation l l' ->
+  NoDup l -> (forall t, In t l <-> 1 <= t <= n) ->
+  NoDup l' /\ (forall t, In t l' <-> 1 <= t <= n).
+Proof.
+  intros l l' n P ND R. split; [eapply Permutation_NoDup; eauto|].
+  intro t. rewrite <- R. split; apply Permutation_in; auto using Permutation_sym.
+Qed.
+
+Lemma range_perm_add : forall (l l' : list N) n, Permutation ((n + 1) :: l) l' ->
+  NoDup l -> (forall t, In t l <-> 1 <= t <= n) ->
+  NoDup l' /\ (forall t, In t l' <-> 1 <= t <= n + 1).
+Proof.
+  intros l l' n P ND R.
+  assert (ND' : NoDup ((n + 1) :: l)).
+  { constructor; auto. intro H. apply R in H. lia. }
+  split; [eapply Permutation_NoDup; eauto|].
+  intro t. split.
+  - intro H. apply (Permutation_in _ (Permutation_sym P)) in H. destruct H as [H|H].
+    + lia.
+    + apply R in H. lia.
+  - intro H. apply (Permutation_in _ P).
+    destruct (N.eq_dec t (n + 1)) as [->|Hne]; [left; reflexivity|].
+    right. apply R. lia.
+Qed.
+
+Lemma done_tags_close : forall (l : list pcmd) (d : list (N * N)),
+  map fst (rev (map (fun p => (p_tag p, 3)) l) ++ d) = rev (map p_tag l) ++ map fst d.
+Proof.
+  intros l d. rewrite map_app, map_rev, map_map. reflexivity.
+Qed.
+
+Lemma Inv_init : Inv init_client.
+Proof.
+  unfold Inv, tags, pending_tags, done_tags; simpl. split; [constructor|]. split.
+  - intro t; split; [contradiction|lia].
+  - discriminate.
+Qed.
+
+Lemma Inv_step : forall c e, Inv c -> Inv (step c e).
+Proof.
+  intros c e (ND & R & CL). destruct (c_closed c) eqn:Hc.
+  - destruct (step_shape_closed c e Hc) as [-> | (A & B & C & D)].
+    + unfold Inv; rewrite Hc; auto.
+    + specialize (CL eq_refl).
+      assert (Ht : tags c = done_tags c) by (unfold tags, pending_tags; rewrite CL; reflexivity).
+      rewrite Ht in ND, R.
+      destruct (range_perm_add (done_tags c) (tags (step c e)) (c_tag c)) as [X Y]; auto.
+      { unfold tags, pending_tags, done_tags. rewrite A, B. simpl. apply Permutation_refl. }
+      unfold Inv. rewrite C. split; [exact X|]. split; [exact Y|]. intros _; exact A.
+  - destruct (step_shape_open c e Hc) as [(A & B & C & D) | [(A & B & C & D) | [(t & s & p & rest & T & A & B & C & D) | (A & B & C & D)]]].
+    + (* A *)
+      assert (Ht : tags (step c e) = tags c) by (unfold tags, done_tags; rewrite A, B; reflexivity).
+      unfold Inv. rewrite Ht, C, D. split; [exact ND|]. split; [exact R|]. intro X; discriminate X.
+    + (* B *)
+      destruct (range_perm_add (tags c) (tags (step c e)) (c_tag c)) as [X Y]; auto.
+      { unfold tags at 2. unfold done_tags at 1. rewrite A, B. fold (done_tags c).
+        unfold tags. change ((c_tag c + 1) :: pending_tags c ++ done_tags c)
+          with (((c_tag c + 1) :: pending_tags c) ++ done_tags c).
+        apply Permutation_app_tail. apply Permutation_cons_append. }
+      unfold Inv. rewrite C, D. split; [exact X|]. split; [exact Y|]. intro Z; discriminate Z.
+    + (* C *)
+      destruct (take_tag_spec _ _ _ _ T) as [_ P].
+      destruct (range_perm_same (tags c) (tags (step c e)) (c_tag c)) as [X Y]; auto.
+      { unfold tags, pending_tags, done_tags. rewrite A, B. simpl.
+        eapply perm_trans; [apply Permutation_app_tail; exact P|].
+        simpl. apply Permutation_middle. }
+      unfold Inv. rewrite C, D. split; [exact X|]. split; [exact Y|]. intro Z; discriminate Z.
+    + (* D *)
+      destruct (range_perm_same (tags c) (tags (step c e)) (c_tag c)) as [X Y]; auto.
+      { unfold tags, pending_tags, done_tags. rewrite A, B. simpl. rewrite done_tags_close.
+        apply Permutation_app_tail. apply Permutation_rev. }
+      unfold Inv. rewrite C. split; [exact X|]. split; [exact Y|]. intros _; exact A.
+Qed.
+
+Lemma Inv_fold : forall evs c, Inv c -> Inv (fold_left step evs c).
+Proof. induction evs as [|e evs IH]; simpl; intros c H; auto using Inv_step. Qed.
+
+Lemma Inv_run : forall evs, Inv (run evs).
+Proof. intro evs; unfold run; apply Inv_fold, Inv_init. Qed.
+
+(* ---- completions only grow ---- *)
+Lemma done_step : forall c e x, In x (c_done c) -> In x (c_done (step c e)).
+Proof.
+  intros c e x H. destruct (c_closed c) eqn:Hc.
+  - destruct (step_shape_closed c e Hc) as [-> | (A & B & C & D)]; auto.
+    rewrite B; right; exact H.
+  - destruct (step_shape_open c e Hc) as [(A & B & C & D) | [(A & B & C & D) | [(t & s & p & rest & T & A & B & C & D) | (A & B & C & D)]]];
+      rewrite B; auto.
+    + right; exact H.
+    + apply in_or_app; right; exact H.
+Qed.
+
+Lemma done_fold : forall evs c x, In x (c_done c) -> In x (c_done (fold_left step evs c)).
+Proof. induction evs as [|e evs IH]; simpl; intros c x H; auto using done_step. Qed.
+
+Lemma closed_step : forall c e, c_closed c = true -> c_pending c = [] ->
+  c_closed (step c e) = true /\ c_pending (step c e) = [].
+Proof.
+  intros c e Hc Hp. destruct (step_shape_closed c e Hc) as [-> | (A & B & C & D)]; auto.
+Qed.
+
+Lemma closed_fold : forall evs c, c_closed c = true -> c_pending c = [] ->
+  c_closed (fold_left step evs c) = true /\ c_pending (fold_left step evs c) = [].
+Proof.
+  induction evs as [|e evs IH]; simpl; intros c Hc Hp; auto.
+  destruct (closed_step c e Hc Hp) as [A B]. apply IH; auto.
+Qed.
+
+(* ---- mailbox summary <-> selected state ---- *)
+Definition MInv (c : client) : Prop :=
+  c_closed c = false -> (c_mbox c <> None <-> c_state c = S_SEL).
+
+Lemma MInv_set_state : forall c s, s <> S_SEL -> MInv (set_state c s).
+Proof.
+  intros c s Hs _. simpl. destruct (N.eqb_spec s S_SEL) as [E|E]; [contradiction|].
+  split; [intro H; exfalso; apply H; reflexivity | intro H; contradiction].
+Qed.
+
+Lemma MInv_step : forall c e, MInv c -> MInv (step c e).
+Proof.
+  intros c e M. destruct (c_closed c) eqn:Hc.
+  - destruct (step_shape_closed c e Hc) as [-> | (A & B & C & D)].
+    + exact M.
+    + intro H; congruence.
+  - specialize (M Hc).
+    assert (HU : uni e -> MInv (step c e)).
+    { intros Hu _. destruct (step_unilateral c e Hu) as (_ & _ & _ & _ & S & F).
+      rewrite S, F. exact M. }
+    destruct e; try (apply HU; exact I); clear HU; unfold step; rewrite Hc.
+    + (* EvGreeting *)
+      destruct (kind =? 0); [apply MInv_set_state; discriminate|].
+      destruct (kind =? 1); [apply MInv_set_state; discriminate|].
+      intro H; discriminate H.
+    + (* EvSubmit *)
+      intros _; simpl; exact M.
+    + (* EvTagged *)
+      destruct (take_tag tag (c_pending c)) as [[p rest]|] eqn:T; [|intro H; discriminate H].
+      destruct (status =? 0); [|intros _; simpl; exact M].
+      unfold on_ok. destruct (p_kind p); try (apply MInv_set_state; discriminate);
+        try (intros _; simpl; exact M).
+      intros _; simpl. split; [reflexivity|discriminate].
+    + (* EvClosed *)
+      apply MInv_set_state; discriminate.
+    + (* EvConnLost *)
+      intro H; discriminate H.
+Qed.
+
+Lemma MInv_fold : forall evs c, MInv c -> MInv (fold_left step evs c).
+Proof. induction evs as [|e evs IH]; simpl; intros c H; auto using MInv_step. Qed.
+
+(* ------------------------------------------------------------------ main results *)
+
 (* Every tag ever issued is, at every moment, either pending exactly once or completed exactly
    once — never both, never twice, never lost — for EVERY event sequence (any server
    behaviour, any point of connection loss). *)
 Lemma exactly_once : forall evs, let c := run evs in
   NoDup (pending_tags c ++ done_tags c) /\
   (forall t, In t (pending_tags c ++ done_tags c) <-> 1 <= t <= c_tag c).
-Admitted.
+Proof.
+  intros evs c. destruct (Inv_run evs) as (A & B & _). split; [exact A|exact B].
+Qed.
 
 (* tags are fresh: a submission gets the next number *)
 Lemma tags_unique : forall evs k, c_closed (run evs) = false ->
   c_tag (run (evs ++ [EvSubmit k])) = c_tag (run evs) + 1 /\
   ~ In (c_tag (run evs) + 1) (pending_tags (run evs) ++ done_tags (run evs)).
-Admitted.
+Proof.
+  intros evs k H. split.
+  - rewrite run_snoc. unfold step. rewrite H. reflexivity.
+  - intro HI. apply (proj2 (exactly_once evs)) in HI. lia.
+Qed.
 
 (* C10: once the connection is lost (EOF, error, timeout, Close) nothing stays pending, and
    a command whose tagged response had not arrived completes with an error, not success *)
@@ -27,11 +336,32 @@ Lemma close_completes_all : forall evs evs', let c := run (evs ++ EvConnLost :: 
   c_pending c = [] /\ c_closed c = true /\
   (forall t, In t (pending_tags (run evs)) -> In (t, 3) (c_done c)) /\
   (forall t, 1 <= t <= c_tag c -> In t (done_tags c)).
-Admitted.
+Proof.
+  intros evs evs' c.
+  assert (H1 : c_closed (step (run evs) EvConnLost) = true /\
+               c_pending (step (run evs) EvConnLost) = [] /\
+               (forall t, In t (pending_tags (run evs)) ->
+                          In (t, 3) (c_done (step (run evs) EvConnLost)))).
+  { destruct (Inv_run evs) as (_ & _ & CL). unfold step.
+    destruct (c_closed (run evs)) eqn:Hc.
+    - specialize (CL eq_refl). repeat split; auto.
+      unfold pending_tags; rewrite CL; simpl; contradiction.
+    - simpl. repeat split; auto. intros t Ht. apply in_or_app; left.
+      apply -> in_rev. unfold pending_tags in Ht. apply in_map_iff in Ht.
+      destruct Ht as (p & <- & Hp). apply in_map_iff. exists p; auto. }
+  destruct H1 as (Hc & Hp & Hd).
+  assert (Hrun : c = fold_left step evs' (step (run evs) EvConnLost)) by apply run_app_cons.
+  destruct (closed_fold evs' _ Hc Hp) as [Hc' Hp'].
+  rewrite <- Hrun in Hc', Hp'.
+  split; [exact Hp'|]. split; [exact Hc'|]. split.
+  - intros t Ht. rewrite Hrun. apply done_fold. apply Hd; exact Ht.
+  - intros t Ht. destruct (exactly_once (evs ++ EvConnLost :: evs')) as [_ R].
+    fold c in R. apply R in Ht. unfold pending_tags in Ht at 1. rewrite Hp' in Ht. exact Ht.
+Qed.
 
 (* completions are never revoked or changed by later events *)
 Lemma done_monotone : forall evs e t s, In (t, s) (c_done (run evs)) -> In (t, s) (c_done (run (evs ++ [e]))).
-Admitted.
+Proof. intros evs e t s H. rewrite run_snoc. apply done_step; exact H. Qed.
 
 (* C12: a tagged response completes its own command with its own status and touches no other
    pending command; a NO or BAD changes neither the state nor the mailbox summary *)
@@ -40,7 +370,14 @@ Lemma tagged_own_status : forall evs t s p rest, c_closed (run evs) = false ->
   let c' := run (evs ++ [EvTagged t s]) in
   In (t, s) (c_done c') /\ c_pending c' = rest /\
   (s <> 0 -> c_state c' = c_state (run evs) /\ c_mbox c' = c_mbox (run evs)).
-Admitted.
+Proof.
+  intros evs t s p rest Hc T c'. unfold c'. rewrite run_snoc. unfold step. rewrite Hc, T.
+  destruct (N.eqb_spec s 0) as [E|E].
+  - destruct (on_ok_fields (mkC (c_state (run evs)) (c_mbox (run evs)) rest (c_tag (run evs))
+                                ((t, s) :: c_done (run evs)) false) p) as (A & B & _ & _).
+    rewrite A, B. simpl. split; [left; reflexivity|]. split; [reflexivity|]. intro; contradiction.
+  - simpl. split; [left; reflexivity|]. split; [reflexivity|]. auto.
+Qed.
 
 (* unilateral data never completes, adds or removes a command, and never changes the
    connection state (only [CLOSED] and the greeting do) *)
@@ -49,9 +386,16 @@ Definition unilateral (e : cev) : bool :=
 Lemma unilateral_routing : forall evs e, unilateral e = true ->
   let c := run evs in let c' := run (evs ++ [e]) in
   c_done c' = c_done c /\ pending_tags c' = pending_tags c /\ c_state c' = c_state c /\ c_tag c' = c_tag c.
-Admitted.
+Proof.
+  intros evs e Hu c c'. unfold c', c. rewrite run_snoc.
+  assert (Hu' : uni e) by (destruct e; simpl in *; try discriminate; exact I).
+  destruct (step_unilateral (run evs) e Hu') as (A & B & C & _ & S & _). auto.
+Qed.
 
 (* the mailbox summary exists exactly in the selected state (while the connection is up) *)
 Lemma mailbox_iff_selected : forall evs, let c := run evs in
   c_closed c = false -> (c_mbox c <> None <-> c_state c = S_SEL).
-Admitted.
+Proof.
+  intros evs c. unfold c, run. apply MInv_fold.
+  intros _; simpl. split; [intro H; exfalso; apply H; reflexivity | discriminate].
+Qed.
